@@ -62,7 +62,7 @@ def gen_manifest(rng):
             e['path'] = path
         if title:
             e['title'] = title
-        if rng.random() < 0.3:
+        if rng.random() < 0.4:
             e['run_background'] = True
         entries.append(e)
     return entries
@@ -205,6 +205,31 @@ class Harness:
         return out
 
 
+def directed(h, manifest, rng):
+    """Short scenarios around the stop requests: what is running when they arrive is chosen, not left to chance."""
+    bgs = [raw_path(e) for e in manifest if e.get('run_background')]
+    fgs = [raw_path(e) for e in manifest if not e.get('run_background')]
+    steps = []
+    plan = rng.choice(['bg-only', 'fg-then-done', 'both', 'queue', 'nothing'])
+    if plan in ('bg-only', 'fg-then-done', 'both') and bgs:
+        steps.append(h.request('run', rng.choice(bgs)))
+    if plan in ('fg-then-done', 'both', 'queue') and fgs:
+        steps.append(h.request('run', rng.choice(fgs)))
+        if plan == 'queue':
+            steps.append(h.request('run', rng.choice(fgs)))
+            steps.append(h.request('run', rng.choice(fgs)))
+    if plan == 'fg-then-done':
+        for jid in h.running_jobs():
+            job = h.jobs[jid - 1]
+            if not any(m for j, m in h.mode_log if j == jid and m):
+                steps.append(h.complete(jid))
+    steps.append(h.request(rng.choice(['stop_all', 'stop_all', 'stop_current'])))
+    steps.append(h.request('status'))
+    if fgs or bgs:
+        steps.append(h.request('run', rng.choice(fgs + bgs)))
+    return steps
+
+
 def history(h, manifest, rng, length):
     listed = [raw_path(e) for e in manifest]
     unlisted = ['nope', 'A.LS', listed[0] + 'x', listed[0][:-1] if len(listed[0]) > 1 else 'zz', html.escape(listed[0]) + ';', '..', 'web/m.json',
@@ -235,13 +260,13 @@ def history(h, manifest, rng, length):
 def run(report, replay=None):
     tier, rng = report.tier, random.Random(report.seed)
     os.makedirs(os.path.join(core.VERIF, '.scratch'), exist_ok=True)
-    n = 400 if tier == 'thorough' else 60
+    n = 600 if tier == 'thorough' else 120
     batch, meta = [], {}
     for i in range(n):
         manifest = gen_manifest(rng)
         h = Harness(manifest)
         try:
-            steps = history(h, manifest, rng, rng.randint(3, 8))
+            steps = directed(h, manifest, rng) if i % 3 == 2 else history(h, manifest, rng, rng.randint(3, 8))
             listing = []
             for ctl in h.app.get_script_list():
                 listing.append({'rawpath': codes(html.unescape(ctl.path)), 'path': codes(ctl.path), 'title': codes(ctl.title), 'file': codes(ctl.file_name),
